@@ -38,7 +38,10 @@ MISMATCH_BUDGET = 0.0
 RULE = ('random edge-consistent sequences of 1-8 (quick) / 1-30 (thorough) blocks with block/sinc/composite (2-3 '
         'equal-amplitude lobes of different length: peak reached on an unevenly distributed sample set) RF pulses of use '
         'none/excitation/refocusing/inversion/saturation/preparation (random delay, duration, centre position), '
-        'one fifth of the sequences also written and read into a Sequence() whose system has another gradient raster '
+        'streams: plain; reread (written and read into a Sequence() whose system has another gradient raster); history '
+        '(after calculate_kspace decoded the blocks: flip_grad_axis / mod_grad_axis / set_block / add_block / '
+        'remove_duplicates on the same object, both cache settings, whole oracle again); gapped (set_block with '
+        'gapped, non-ascending block numbers); adc_on_rf (ADC under an RF pulse with a sample exactly on its centre) '
         '(k-space of the re-read object vs the integrator of its own events), '
         'gradients of all kinds on 3 channels (also during RF), ADC events with random dwell/delay/num_samples; per '
         'sequence calculate_kspace(): t_adc, t_excitation, t_refocusing and k_traj_adc on every channel vs exact '
@@ -49,8 +52,11 @@ RULE = ('random edge-consistent sequences of 1-8 (quick) / 1-30 (thorough) block
 TRUSTED = ['binary64 arithmetic of NumPy and scipy.interpolate.PPoly (antiderivative) are outside the model: sampled',
            'get_block is taken as the definition of the events held by the sequence (C06 checks it)']
 ASSUMPTIONS = ['OnGrid: all event times are multiples of 50 ns (the 1e-10 rounding of calculate_kspace is the '
-               'identity); no ADC sample within one RF raster before an excitation centre (that grid point is '
-               'overwritten with NaN by the code as a plot marker); RF centres later than 2 RF rasters']
+               'identity); no ADC sample strictly inside the RF raster before an excitation centre (that grid point '
+               'is overwritten with NaN by the code as a plot marker) - samples exactly ON an excitation / refocusing '
+               'centre are generated and must be finite; RF centres later than 2 RF rasters',
+               'the events every output is compared with are those of a cache-free deep copy of the live object '
+               '(use_block_cache=False), so a stale decoded-block cache shows as an oracle failure']
 
 EXC_USES = (None, 'excitation', 'undefined')      # the property: "use excitation or no use"
 
@@ -155,14 +161,27 @@ def close_t(a, b):
 
 
 def run_case(ctx, case, rng):
-    """the sequence as built; then (reread cases) the same sequence written and read into a Sequence() whose system
-    has ANOTHER gradient raster: k-space of the re-read object vs the exact integrator of its own events"""
+    """phase 0: the sequence as built; then, per history operation through the public API (flip_grad_axis,
+    mod_grad_axis, set_block, add_block, remove_duplicates) applied AFTER calculate_kspace decoded the blocks, the
+    whole oracle again on the SAME object; then (reread cases) the same sequence written and read into a Sequence()
+    whose system has ANOTHER gradient raster"""
     try:
         seq = eg.build_sequence(case)
     except Exception as e:
         ctx.count('gen.refused')
         return None
-    ok = check_seq(ctx, case, seq, case['blocks'], rng)
+    blocks = list(case['blocks'])
+    ok = check_seq(ctx, dict(case, phase=0), seq, blocks, rng)
+    for k, op in enumerate(case.get('history', [])):
+        if not ok:
+            return ok
+        try:
+            blocks = eg.apply_op(seq, blocks, op, case)
+        except Exception as e:
+            ctx.count('gen.history_op_refused')
+            return ok
+        ctx.count('history.%s' % op['op'])
+        ok = check_seq(ctx, dict(case, phase=k + 1), seq, blocks, rng)
     if ok and 'reread_raster_us' in case:
         try:
             s2 = eg.reread_sequence(seq, case)
@@ -175,7 +194,8 @@ def run_case(ctx, case, rng):
 
 
 def check_seq(ctx, case, seq, blocks_desc, rng):
-    held = eg.Held(seq)
+    # the events of the sequence AS IT IS NOW, decoded without any cache
+    held = eg.Held(eg.fresh_view(seq))
     if not held.ok:
         ctx.count('gen.off_grid')
         return None
@@ -376,15 +396,19 @@ def run(ctx):
     rng = ctx.rng('sequences')
     trng = ctx.rng('times')
     big = ctx.tier == 'thorough' or ctx.escalated
-    n_cases = 3000 if big else 118
+    n_cases = 3000 if big else 100
     cases = corpus()
     for i in range(n_cases):
         k = rng.random()
-        stream = rng.choice(['plain', 'plain', 'plain', 'plain', 'reread'])
-        b = eg.Builder(rng, with_rf=k < 0.85, with_adc=True, max_blocks=30 if big and i % 4 == 0 else 9,
-                       reread=(stream == 'reread'))
+        stream = rng.choice(['plain', 'plain', 'reread', 'history', 'history', 'gapped', 'gapped', 'adc_on_rf', 'adc_on_rf'])
+        b = eg.Builder(rng, with_rf=(k < 0.85 or stream == 'adc_on_rf'), with_adc=True,
+                       max_blocks=30 if big and i % 4 == 0 else 9, reread=(stream == 'reread'),
+                       gapped=(stream == 'gapped'), adc_on_rf=(stream == 'adc_on_rf'))
         c = b.generate()
         c['stream'] = stream
+        c['cache'] = rng.random() < 0.8
+        if stream == 'history':
+            c['history'] = b.gen_history()
         cases.append(c)
     for i, c in enumerate(cases):
         if ctx.out_of_time():
